@@ -63,6 +63,15 @@ theorem Built.gate_eq (h : Built D dffs outs c) (hnd : (names D).Nodup) (hdot : 
   rw [Limit.gateFn_perm_any d.2.1 ((h.fanin_perm hnd hdot hd hq hops).map v)]
   exact hb
 
+/-- the same for a gate line whose operands may repeat: the node carries the parity-normalised definition, and its
+    fan-in set computes the declared gate function of the declared operand list -/
+theorem Built.gate_eq_norm (h : Built D dffs outs c) (hnd : (names D).Nodup) (hdot : ∀ x ∈ names D, ¬ hasDotB x)
+    {g : Def} (hd : normDef g ∈ D) (hq : g.1 ∉ dffs.map (·.1)) (hty : g.2.1 ∈ gateTysP)
+    (h1 : (g.2.1 = "buf" ∨ g.2.1 = "not") → g.2.2.length = 1) (v : Val) (hv : Consistent c v)
+    (b : Bool) (hb : gateFn g.2.1 (g.2.2.map v) = some b) : v g.1 = b := by
+  apply hv (g.1, _) (attr?_mem (h.attrD (normDef g) hd)) (normDef g).2.1 rfl b
+  exact (parityGate_sem hty h1 v (fanin_nodup h.nodupE _) (h.fanin_mem hnd hdot hd hq)).trans hb
+
 theorem Built.fanin_pinD (h : Built D dffs outs c) (hdot : ∀ x ∈ names D, ¬ hasDotB x)
     (hsub : ∀ d ∈ dffs, d.1 ∈ names D) (hnd : (dffs.map (·.1)).Nodup) {d : Name × Name} (hd : d ∈ dffs) :
     c.fanin (pinD d.1) = [d.2] := by
@@ -148,28 +157,29 @@ end
 section
 variable {ins : List Name} {gates : List Def} {dffs : List (Name × Name)} {outs : List Name}
 
-theorem WFP.gate_not_dff (hw : WFP ins gates dffs outs) {g : Def} (hg : g ∈ gates) : g.1 ∉ dffs.map (·.1) := by
+theorem WFP0.gate_not_dff (hw : WFP0 ins gates dffs outs) {g : Def} (hg : g ∈ gates) : g.1 ∉ dffs.map (·.1) := by
   intro hm
   have := (List.nodup_append.mp hw.defsNodup).2.2 g.1
     (List.mem_append.mpr (Or.inr (List.mem_map.mpr ⟨g, hg, rfl⟩))) g.1 hm
   exact this rfl
 
 /-- the statement of `C15.build_sem`, over the proof-side copies of the definitions -/
-theorem build_semP (name : String) (hw : WFP ins gates dffs outs) :
+theorem build_semP (name : String) (hw : WFP0 ins gates dffs outs) :
     ∃ c, build name (stmtsP ins gates dffs outs) = .ok c ∧
       (∀ x, x ∈ c.inputs ↔ x ∈ ins) ∧ (∀ x, x ∈ c.outputs ↔ x ∈ outs) ∧
-      (∀ g ∈ gates, c.ty? g.1 = some g.2.1 ∧ (c.fanin g.1).Perm g.2.2) ∧
+      (∀ g ∈ gates, g.2.2.Nodup → c.ty? g.1 = some g.2.1 ∧ (c.fanin g.1).Perm g.2.2) ∧
       (∀ v, Consistent c v → ∀ g ∈ gates, ∀ b, gateFn g.2.1 (g.2.2.map v) = some b → v g.1 = b) ∧
       (∀ d ∈ dffs, c.bbs.lookup (d.1 ++ "_dff") = some dffBB ∧ c.ty? d.1 = some "buf" ∧
           c.fanin (d.1 ++ "_dff.D") = [d.2] ∧ c.fanin d.1 = [d.1 ++ "_dff.Q"]) := by
-  obtain ⟨c, e, h⟩ := build_struct name hw
-  have hndAll : (names (defsOf ins gates dffs)).Nodup := by
-    rw [names_defsOf, ← List.append_assoc]; exact hw.defsNodup
-  have hdot : ∀ x ∈ names (defsOf ins gates dffs), ¬ hasDotB x :=
-    fun x hx => (hw.names x (mem_names_defsOf.mp hx)).2.2
-  have hgD : ∀ g ∈ gates, g ∈ defsOf ins gates dffs := fun g hg => by
-    unfold defsOf; simp [hg]
-  have hdD : ∀ d ∈ dffs, ((d.1, "buf", []) : Def) ∈ defsOf ins gates dffs := fun d hd => by
+  obtain ⟨c, e, h⟩ := build_struct0 name hw
+  have hndAll : (names (defsOf ins (gates.map normDef) dffs)).Nodup := by
+    rw [names_defsOf_norm, ← List.append_assoc]; exact hw.defsNodup
+  have hdot : ∀ x ∈ names (defsOf ins (gates.map normDef) dffs), ¬ hasDotB x :=
+    fun x hx => (hw.names x (mem_names_defsOf_norm.mp hx)).2.2
+  have hgD : ∀ g ∈ gates, normDef g ∈ defsOf ins (gates.map normDef) dffs := fun g hg => by
+    unfold defsOf
+    exact List.mem_append.mpr (Or.inr (List.mem_append.mpr (Or.inl (List.mem_map.mpr ⟨g, hg, rfl⟩))))
+  have hdD : ∀ d ∈ dffs, ((d.1, "buf", []) : Def) ∈ defsOf ins (gates.map normDef) dffs := fun d hd => by
     unfold defsOf dffDefs
     simp only [List.mem_append, List.mem_map]
     exact Or.inr (Or.inr ⟨d, hd, rfl⟩)
@@ -184,7 +194,8 @@ theorem build_semP (name : String) (hw : WFP ins gates dffs outs) :
       · obtain ⟨n, hn, rfl⟩ := List.mem_map.mp h1; exact hn
       · exfalso
         rcases List.mem_append.mp h1 with h1 | h1
-        · exact (gateTys_facts (hw.gateTy d h1)).2.2.2.1 h2
+        · obtain ⟨g, hg, rfl⟩ := List.mem_map.mp h1
+          exact (normDef_facts (hw.gateTy g hg) (hw.gateArity g hg).2).2.2.1 h2
         · obtain ⟨n, hn, rfl⟩ := List.mem_map.mp h1
           exact absurd (show "buf" = "input" from h2) (by decide)
     · intro hx
@@ -192,11 +203,13 @@ theorem build_semP (name : String) (hw : WFP ins gates dffs outs) :
       unfold defsOf insDefs
       simp only [List.mem_append, List.mem_map]
       exact Or.inl ⟨x, hx, rfl⟩
-  · exact h.mem_outputs (fun x hx => mem_names_defsOf.mpr (hw.outsDef x hx))
-  · intro g hg
-    exact ⟨h.ty (hgD g hg), h.fanin_perm hndAll hdot (hgD g hg) (hw.gate_not_dff hg) (hw.gateArity g hg).2.1⟩
+  · exact h.mem_outputs (fun x hx => mem_names_defsOf_norm.mpr (hw.outsDef x hx))
+  · intro g hg hops
+    have hgD' := hgD g hg
+    rw [normDef_nodup hops] at hgD'
+    exact ⟨h.ty hgD', h.fanin_perm hndAll hdot hgD' (hw.gate_not_dff hg) hops⟩
   · intro v hv g hg b hb
-    exact h.gate_eq hndAll hdot (hgD g hg) (hw.gate_not_dff hg) (hw.gateArity g hg).2.1 v hv b hb
+    exact h.gate_eq_norm hndAll hdot (hgD g hg) (hw.gate_not_dff hg) (hw.gateTy g hg) (hw.gateArity g hg).2 v hv b hb
   · intro d hd
     refine ⟨h.bbsP d hd, h.ty (hdD d hd), ?_, ?_⟩
     · exact h.fanin_pinD hdot (fun d' hd' => List.mem_map.mpr ⟨_, hdD d' hd', rfl⟩) hdnd hd
